@@ -15,8 +15,15 @@ from contracts import C19_locks as _c19
 register(Unit(P, "FENCE/S3LockProviderBase.is_held", _c19.h_is_held_s3, functions=["lock_provider:S3LockProviderBase.is_held"], replay=_c19._replay_s3lock, reg_factory=_c19.registry))
 
 from contracts import helpers as _HLP  # noqa: E402
-_HLP.register_under("C08", ["HELPER/metadata-file-io"])
+_HLP.register_under("C08", ["HELPER/metadata-file-io", "NAME/_new_metadata_filename"])
 
 # FENCE rests on ownership checks that compare lock identities: identities must be unique per provider instance
 from contracts import C19_locks as _c19  # noqa: E402
 register(Unit(P, "FENCE/lock-identity", _c19.h_lock_identity, functions=[f"{_c19.LP}:S3LockProviderBase.__init__"], replay=_c19._replay_s3lock))
+
+# a stale holder must NOTICE that it was superseded: the renewal (heartbeat) is what clears is_locked before the fence reads it
+register(Unit(P, "FENCE/S3LockProvider._renew_once", _c19.h_renew, functions=[f"{_c19.LP}:S3LockProvider._renew_once"], replay=_c19._replay_takeover_renewal, reg_factory=_c19.registry))
+
+
+from contracts import C20_storage as _c20  # noqa: E402
+_c20.register_cas_map_under(P)
